@@ -162,7 +162,7 @@ class Run:
             rc, out = sh(["lake", "env", "lean", af], cwd=LEAN, timeout=900)
         cur = None
         text = out.replace("\n  ", " ")
-        for m in re.finditer(r"'([^']+)' (depends on axioms: \[([^\]]*)\]|does not depend on any axioms)", text):
+        for m in re.finditer(r"'(\S+)' (depends on axioms: \[([^\]]*)\]|does not depend on any axioms)", text):
             name = m.group(1)
             axs = [a.strip() for a in (m.group(3) or "").split(",") if a.strip()]
             self.axioms[name] = axs
